@@ -11,3 +11,807 @@ Proof.
   intros [ve fc spin bv]. unfold hs_expr, count_spec. cbn [denote v_ve v_fc v_spin v_bv].
   generalize (Qceiling bv) (Qfloor bv). intros c f. lia.
 Qed.
+
+(* ================================================================== structure: what one call changes *)
+Local Open Scope nat_scope.
+(* hydrogens actually added for a computed count k: k of them for 1..4, none otherwise *)
+Definition n_added (k : Z) : nat := if ((0 <? k) && (k <=? 4))%Z then Z.to_nat k else 0%nat.
+Definition added_to (t : nat) (nbs : list hbond) : nat := length (filter (fun b => Nat.eqb (hb_a1 b) t) nbs).
+
+Lemma set_nth_length {A} (x : A) : forall l i, length (set_nth i x l) = length l.
+Proof. induction l as [|y l IH]; intros [|i]; simpl; auto. Qed.
+Lemma set_nth_same {A} (x : A) : forall l i, i < length l -> nth_error (set_nth i x l) i = Some x.
+Proof. induction l as [|y l IH]; intros [|i] H; simpl in *; try lia; auto. apply IH. lia. Qed.
+Lemma set_nth_other {A} (x : A) : forall l i j, i <> j -> nth_error (set_nth i x l) j = nth_error l j.
+Proof. induction l as [|y l IH]; intros [|i] [|j] H; simpl; auto; try lia. Qed.
+Lemma set_nth_app {A} (x : A) : forall l r i, i < length l -> set_nth i x (l ++ r) = set_nth i x l ++ r.
+Proof. induction l as [|y l IH]; intros r [|i] H; simpl in *; try lia; auto. f_equal. apply IH. lia. Qed.
+Lemma clear_hint_idem a : clear_hint (clear_hint a) = clear_hint a.
+Proof. reflexivity. Qed.
+Lemma map_set_nth_clear : forall l i a, nth_error l i = Some a ->
+  map clear_hint (set_nth i (clear_hint a) l) = map clear_hint l.
+Proof.
+  induction l as [|y l IH]; intros [|i] a H; simpl in *; try discriminate.
+  - inversion H; subst. reflexivity.
+  - f_equal. apply IH. exact H.
+Qed.
+Lemma clear_hint_h : clear_hint h_atom = h_atom.
+Proof. reflexivity. Qed.
+Lemma new_bond_a1 i j : hb_a1 (new_bond i j) = i. Proof. reflexivity. Qed.
+Lemma new_bond_a2 i j : hb_a2 (new_bond i j) = j. Proof. reflexivity. Qed.
+Lemma new_bond_order i j : order_of (new_bond i j) = 1%Q.
+Proof. reflexivity. Qed.
+Lemma tetrahedron_length : length tetrahedron = 4.
+Proof. reflexivity. Qed.
+
+Section Structure.
+Context {F : Type} (o : Fops F).
+
+Lemma append_hs_spec : forall ps (m : hmol F) i,
+  hm_atoms (append_hs m i ps) = hm_atoms m ++ repeat h_atom (length ps) /\
+  hm_bonds (append_hs m i ps) = hm_bonds m ++ map (new_bond i) (seq (length (hm_atoms m)) (length ps)) /\
+  hm_xyz (append_hs m i ps) = hm_xyz m ++ ps.
+Proof.
+  induction ps as [|p ps IH]; intros m i.
+  - simpl. rewrite !app_nil_r. auto.
+  - unfold append_hs in *. cbn [fold_left]. destruct (IH (mkHM (hm_atoms m ++ [h_atom])
+        (hm_bonds m ++ [new_bond i (length (hm_atoms m))]) (hm_xyz m ++ [p])) i) as [A [B C]].
+    rewrite A, B, C. cbn [hm_atoms hm_bonds hm_xyz length repeat seq map].
+    rewrite app_length. cbn [length]. rewrite Nat.add_1_r, <- !app_assoc. auto.
+Qed.
+
+Lemma place_length (tet : list (vec F)) a nb L k w : length tet = 4 ->
+  length (place o tet a nb L k w) = n_added k.
+Proof.
+  intros Ht. destruct tet as [|t0 [|t1 [|t2 [|t3 [|]]]]]; try discriminate.
+  unfold n_added.
+  destruct (Z.eq_dec k 1) as [->|N1]; [reflexivity|].
+  destruct (Z.eq_dec k 2) as [->|N2]; [reflexivity|].
+  destruct (Z.eq_dec k 3) as [->|N3]; [reflexivity|].
+  destruct (Z.eq_dec k 4) as [->|N4]; [reflexivity|].
+  assert (E : place o [t0; t1; t2; t3] a nb L k w = []).
+  { unfold place. destruct k as [|p|p]; try reflexivity.
+    destruct p as [[p|p|]|[[p|p|]|[p|p|]|]|]; try reflexivity; lia. }
+  rewrite E. destruct ((0 <? k) && (k <=? 4))%Z eqn:B; [|reflexivity].
+  apply andb_true_iff in B. destruct B as [B1 B2]. apply Z.ltb_lt in B1. apply Z.leb_le in B2. lia.
+Qed.
+
+Lemma n_added_nonpos k : (k <= 0)%Z -> n_added k = 0.
+Proof. intros H. unfold n_added. destruct (0 <? k)%Z eqn:B; [apply Z.ltb_lt in B; lia | reflexivity]. Qed.
+
+(* one iteration of the loop *)
+Lemma hadd_one_spec (m m' : hmol F) i w : hadd_one o m i w = Some m' ->
+  exists a k, nth_error (hm_atoms m) i = Some a /\ count_of (hm_bonds m) i a = Some k /\
+    hm_atoms m' = set_nth i (clear_hint a) (hm_atoms m) ++ repeat h_atom (n_added k) /\
+    hm_bonds m' = hm_bonds m ++ map (new_bond i) (seq (length (hm_atoms m)) (n_added k)) /\
+    exists ps, hm_xyz m' = hm_xyz m ++ ps /\ length ps = n_added k /\
+               ps = if (0 <? k)%Z then positions o m i a k w else [].
+Proof.
+  unfold hadd_one. destruct (nth_error (hm_atoms m) i) as [a|] eqn:Ha; [|discriminate].
+  destruct (count_of (hm_bonds m) i a) as [k|] eqn:Hk; [|discriminate].
+  intros H. exists a, k. split; [reflexivity|]. split; [exact Hk|].
+  destruct (0 <? k)%Z eqn:B.
+  - inversion H; subst m'. clear H.
+    destruct (append_hs_spec (positions o m i a k w)
+               (mkHM (set_nth i (clear_hint a) (hm_atoms m)) (hm_bonds m) (hm_xyz m)) i) as [A [Bd C]].
+    assert (Hl : length (positions o m i a k w) = n_added k).
+    { unfold positions. apply place_length. unfold tetF. rewrite map_length. apply tetrahedron_length. }
+    rewrite A, Bd, C. cbn [hm_atoms hm_bonds hm_xyz]. rewrite Hl, set_nth_length.
+    split; [reflexivity|]. split; [reflexivity|]. eexists. split; [reflexivity|]. split; [exact Hl | reflexivity].
+  - inversion H; subst m'. clear H. apply Z.ltb_ge in B. rewrite (n_added_nonpos k B).
+    cbn [hm_atoms hm_bonds hm_xyz repeat seq map]. rewrite !app_nil_r.
+    split; [reflexivity|]. split; [reflexivity|]. exists []. rewrite app_nil_r. auto.
+Qed.
+
+(* bonds appended for another atom do not touch atom t *)
+Lemma incident_new_bond t i j : i <> t -> t < j -> incident t (new_bond i j) = false.
+Proof.
+  intros H1 H2. unfold incident. rewrite new_bond_a1, new_bond_a2.
+  apply orb_false_iff. split; apply Nat.eqb_neq; lia.
+Qed.
+Lemma filter_incident_new t i n k : i <> t -> t < n ->
+  filter (incident t) (map (new_bond i) (seq n k)) = [].
+Proof.
+  intros H1 H2. revert n H2. induction k as [|k IH]; intros n H2; [reflexivity|].
+  cbn [seq map filter]. rewrite incident_new_bond by lia. apply IH. lia.
+Qed.
+Lemma bonded_valence_app_other bonds t i n k : i <> t -> t < n ->
+  bonded_valence (bonds ++ map (new_bond i) (seq n k)) t = bonded_valence bonds t.
+Proof. intros H1 H2. unfold bonded_valence. rewrite filter_app, filter_incident_new, app_nil_r by assumption. reflexivity. Qed.
+Lemma count_of_app_other bonds t a i n k : i <> t -> t < n ->
+  count_of (bonds ++ map (new_bond i) (seq n k)) t a = count_of bonds t a.
+Proof. intros H1 H2. unfold count_of, atom_env. rewrite bonded_valence_app_other by assumption. reflexivity. Qed.
+
+Lemma added_to_app t l r : added_to t (l ++ r) = added_to t l + added_to t r.
+Proof. unfold added_to. rewrite filter_app, app_length. reflexivity. Qed.
+Lemma added_to_new_same t n k : added_to t (map (new_bond t) (seq n k)) = k.
+Proof.
+  unfold added_to. revert n. induction k as [|k IH]; intros n; [reflexivity|].
+  cbn [seq map filter]. rewrite new_bond_a1, Nat.eqb_refl. cbn [length]. f_equal. apply IH.
+Qed.
+Lemma added_to_none t nbs : Forall (fun b => hb_a1 b <> t) nbs -> added_to t nbs = 0.
+Proof.
+  unfold added_to. induction 1 as [|b l Hb _ IH]; [reflexivity|].
+  cbn [filter]. destruct (Nat.eqb (hb_a1 b) t) eqn:E; [apply Nat.eqb_eq in E; contradiction | exact IH].
+Qed.
+
+(* ---- the whole loop.  The atom list is `A ++ (e hydrogens added so far)`; targets are positions of A. *)
+Lemma hadd_inv : forall ts ws (m m' : hmol F) A e,
+  hm_atoms m = A ++ repeat h_atom e ->
+  (forall t, In t ts -> t < length A) -> NoDup ts ->
+  hadd o m ts ws = Some m' ->
+  exists A' nbs ps,
+    hm_atoms m' = A' ++ repeat h_atom (e + length nbs) /\
+    length A' = length A /\ map clear_hint A' = map clear_hint A /\
+    (forall j, ~ In j ts -> nth_error A' j = nth_error A j) /\
+    (forall j, In j ts -> nth_error A' j = option_map clear_hint (nth_error A j)) /\
+    hm_bonds m' = hm_bonds m ++ nbs /\
+    map hb_a2 nbs = seq (length A + e) (length nbs) /\
+    Forall (fun b => In (hb_a1 b) ts /\ b = new_bond (hb_a1 b) (hb_a2 b)) nbs /\
+    hm_xyz m' = hm_xyz m ++ ps /\ length ps = length nbs /\
+    (forall t a, In t ts -> nth_error A t = Some a ->
+       exists k, count_of (hm_bonds m) t a = Some k /\ added_to t nbs = n_added k).
+Proof.
+  induction ts as [|t ts IH]; intros ws m m' A e HA Hlt Hnd H.
+  - cbn [hadd] in H. inversion H; subst m'. exists A, [], [].
+    cbn [length]. rewrite Nat.add_0_r, !app_nil_r. repeat split; auto.
+    + intros j [].
+    + intros t a [].
+  - cbn [hadd] in H. destruct ws as [|w ws]; [discriminate|].
+    destruct (hadd_one o m t w) as [m1|] eqn:H1; [|discriminate].
+    destruct (hadd_one_spec m m1 t w H1) as [a [k [Ha [Hk [At1 [Bd1 [ps1 [X1 [Lp1 _]]]]]]]]].
+    assert (Ht : t < length A) by (apply Hlt; left; reflexivity).
+    rewrite HA in Ha. rewrite nth_error_app1 in Ha by exact Ht.
+    set (A1 := set_nth t (clear_hint a) A).
+    assert (HA1 : hm_atoms m1 = A1 ++ repeat h_atom (e + n_added k)).
+    { rewrite At1, HA, set_nth_app by exact Ht. rewrite <- app_assoc, <- repeat_app. reflexivity. }
+    assert (LA1 : length A1 = length A) by apply set_nth_length.
+    inversion Hnd as [|t' ts' Hnin Hnd']; subst.
+    destruct (IH ws m1 m' A1 (e + n_added k) HA1) as [A' [nbs [ps [P1 [P2 [P3 [P4 [P5 [P6 [P7 [P8 [P9 [P10 P11]]]]]]]]]]]]].
+    { intros t0 H0. rewrite LA1. apply Hlt. right. exact H0. }
+    { exact Hnd'. }
+    { exact H. }
+    set (nb1 := map (new_bond t) (seq (length (hm_atoms m)) (n_added k))) in *.
+    assert (Ln1 : length nb1 = n_added k) by (subst nb1; rewrite map_length, seq_length; reflexivity).
+    assert (Lm : length (hm_atoms m) = length A + e) by (rewrite HA, app_length, repeat_length; reflexivity).
+    exists A', (nb1 ++ nbs), (ps1 ++ ps).
+    rewrite app_length, Ln1.
+    split; [rewrite P1; f_equal; f_equal; lia|].
+    split; [lia|].
+    split; [rewrite P3; subst A1; apply map_set_nth_clear; exact Ha|].
+    split.
+    { intros j Hj. rewrite P4 by (intro; apply Hj; right; assumption).
+      subst A1. apply set_nth_other. intro; subst; apply Hj; left; reflexivity. }
+    split.
+    { intros j [<-|Hj].
+      - rewrite P4 by exact Hnin. subst A1. rewrite set_nth_same by exact Ht. rewrite Ha. reflexivity.
+      - rewrite P5 by exact Hj. subst A1. rewrite set_nth_other; [reflexivity|]. intro; subst; contradiction. }
+    split; [rewrite P6, Bd1, <- app_assoc; reflexivity|].
+    split.
+    { rewrite map_app, P7, LA1. subst nb1. rewrite map_map.
+      rewrite (map_ext _ (fun j => j)) by (intros; apply new_bond_a2). rewrite map_id, Lm.
+      rewrite seq_app. f_equal. f_equal. lia. }
+    split.
+    { apply Forall_app. split.
+      - subst nb1. apply Forall_forall. intros b Hb. apply in_map_iff in Hb. destruct Hb as [j [<- _]].
+        rewrite new_bond_a1, new_bond_a2. split; [left; reflexivity | reflexivity].
+      - eapply Forall_impl; [|exact P8]. intros b [Hb1 Hb2]. split; [right; exact Hb1 | exact Hb2]. }
+    split; [rewrite P9, X1, <- app_assoc; reflexivity|].
+    split; [rewrite app_length, Lp1, P10; reflexivity|].
+    intros t0 a0 [<-|H0] Ha0.
+    + rewrite Ha in Ha0. inversion Ha0; subst a0. exists k. split; [exact Hk|].
+      rewrite added_to_app. subst nb1. rewrite added_to_new_same.
+      rewrite added_to_none; [lia|]. eapply Forall_impl; [|exact P8].
+      intros b [Hb _] E. rewrite E in Hb. contradiction.
+    + assert (Hne : t <> t0) by (intro; subst; contradiction).
+      assert (Ha1 : nth_error A1 t0 = Some a0) by (subst A1; rewrite set_nth_other by exact Hne; exact Ha0).
+      destruct (P11 t0 a0 H0 Ha1) as [k0 [Hk0 Hadd0]]. exists k0. split.
+      * rewrite Bd1 in Hk0. subst nb1. rewrite count_of_app_other in Hk0; [exact Hk0 | exact Hne |].
+        rewrite Lm. specialize (Hlt t0 (or_intror H0)). lia.
+      * rewrite added_to_app, Hadd0. subst nb1. rewrite added_to_none; [reflexivity|].
+        apply Forall_forall. intros b Hb. apply in_map_iff in Hb. destruct Hb as [j [<- _]]. rewrite new_bond_a1. exact Hne.
+Qed.
+
+End Structure.
+
+(* ================================================================== a second call adds nothing *)
+Lemma Qfloor_shift (x : Q) (k : Z) : Qfloor (x + inject_Z k) = (Qfloor x + k)%Z.
+Proof.
+  destruct x as [xn xd]. unfold Qfloor, Qplus, inject_Z. cbn [Qnum Qden].
+  rewrite Pos.mul_1_r, Z.mul_1_r. apply Z_div_plus. reflexivity.
+Qed.
+Lemma Qceiling_shift (x : Q) (k : Z) : Qceiling (x + inject_Z k) = (Qceiling x + k)%Z.
+Proof.
+  unfold Qceiling.
+  assert (E : (- (x + inject_Z k) == - x + inject_Z (- k))%Q).
+  { unfold Qeq, Qopp, Qplus, inject_Z. destruct x as [xn xd]. cbn [Qnum Qden]. ring. }
+  rewrite (Qfloor_comp _ _ E), Qfloor_shift. ring.
+Qed.
+Lemma Qceiling_nonneg (x : Q) : (0 <= x)%Q -> (0 <= Qceiling x)%Z.
+Proof.
+  intros H. pose proof (Qle_ceiling x) as C. rewrite Zle_Qle. change (inject_Z 0) with 0%Q.
+  eapply Qle_trans; [exact H | exact C].
+Qed.
+
+Definition osum (l : list hbond) (x : Q) : Q := fold_left (fun s b => (s + order_of b)%Q) l x.
+Lemma osum_nonneg : forall l x, (0 <= x)%Q -> (forall b, In b l -> (0 <= order_of b)%Q) -> (0 <= osum l x)%Q.
+Proof.
+  induction l as [|b l IH]; intros x Hx Hl; [exact Hx|]. cbn [osum fold_left]. apply IH.
+  - rewrite <- (Qplus_0_r 0). apply Qplus_le_compat; [exact Hx | apply Hl; left; reflexivity].
+  - intros b' Hb'. apply Hl. right. exact Hb'.
+Qed.
+Lemma osum_ones : forall l x, (forall b, In b l -> order_of b = 1%Q) ->
+  (osum l x == x + inject_Z (Z.of_nat (length l)))%Q.
+Proof.
+  induction l as [|b l IH]; intros x Hl.
+  - cbn [osum fold_left length Z.of_nat]. change (inject_Z 0) with 0%Q. rewrite Qplus_0_r. reflexivity.
+  - cbn [osum fold_left length]. rewrite IH by (intros b' Hb'; apply Hl; right; exact Hb').
+    rewrite (Hl b (or_introl eq_refl)), Nat2Z.inj_succ.
+    unfold Z.succ. rewrite inject_Z_plus. ring.
+Qed.
+Lemma osum_app l r x : osum (l ++ r) x = osum r (osum l x).
+Proof. unfold osum. apply fold_left_app. Qed.
+
+Lemma bonded_valence_new bonds nbs t n :
+  t < n ->
+  Forall (fun b => b = new_bond (hb_a1 b) (hb_a2 b) /\ n <= hb_a2 b) nbs ->
+  (bonded_valence (bonds ++ nbs) t == bonded_valence bonds t + inject_Z (Z.of_nat (added_to t nbs)))%Q.
+Proof.
+  intros Ht Hn. unfold bonded_valence. rewrite filter_app. change (fold_left _ ?l ?x) with (osum l x).
+  rewrite osum_app, osum_ones.
+  - assert (E : filter (incident t) nbs = filter (fun b => Nat.eqb (hb_a1 b) t) nbs).
+    { apply filter_ext_in. intros b Hb. rewrite Forall_forall in Hn. destruct (Hn b Hb) as [_ H2].
+      unfold incident. replace (Nat.eqb (hb_a2 b) t) with false; [apply orb_false_r|].
+      symmetry. apply Nat.eqb_neq. lia. }
+    rewrite E. reflexivity.
+  - intros b Hb. apply filter_In in Hb. destruct Hb as [Hb _]. rewrite Forall_forall in Hn.
+    destruct (Hn b Hb) as [-> _]. apply new_bond_order.
+Qed.
+
+Lemma indices_from_ext (p q : hatom -> bool) : forall l l' i,
+  map clear_hint l = map clear_hint l' -> (forall a, p a = q (clear_hint a)) ->
+  indices_from p i l = indices_from p i l'.
+Proof.
+  induction l as [|a l IH]; intros [|a' l'] i H Hp; try discriminate; [reflexivity|].
+  cbn [map] in H. pose proof (f_equal (fun x => hd (clear_hint a) x) H) as H1. pose proof (f_equal (@tl _) H) as H2.
+  cbn [hd tl] in H1, H2. cbn [indices_from].
+  rewrite (Hp a), (Hp a'), H1. destruct (q (clear_hint a')); [f_equal|]; apply IH; assumption.
+Qed.
+Lemma indices_from_app_false (p : hatom -> bool) x n : p x = false -> forall l i,
+  indices_from p i (l ++ repeat x n) = indices_from p i l.
+Proof.
+  intros Hx. induction l as [|a l IH]; intros i.
+  - cbn [app]. revert i. induction n as [|n IHn]; intros i; [reflexivity|]. cbn [repeat indices_from]. rewrite Hx. apply IHn.
+  - cbn [app indices_from]. destruct (p a); [f_equal|]; apply IH.
+Qed.
+Lemma indices_from_spec (p : hatom -> bool) : forall l i t, In t (indices_from p i l) ->
+  i <= t < i + length l /\ exists a, nth_error l (t - i) = Some a /\ p a = true.
+Proof.
+  induction l as [|a l IH]; intros i t H; [destruct H|].
+  cbn [indices_from] in H. destruct (p a) eqn:Pa.
+  - destruct H as [<-|H].
+    + cbn [length]. split; [lia|]. rewrite Nat.sub_diag. exists a. auto.
+    + destruct (IH (S i) t H) as [R [a' [Ha' Pa']]]. cbn [length]. split; [lia|].
+      replace (t - i) with (S (t - S i)) by lia. exists a'. auto.
+  - destruct (IH (S i) t H) as [R [a' [Ha' Pa']]]. cbn [length]. split; [lia|].
+    replace (t - i) with (S (t - S i)) by lia. exists a'. auto.
+Qed.
+Lemma indices_from_nodup (p : hatom -> bool) : forall l i, NoDup (indices_from p i l).
+Proof.
+  induction l as [|a l IH]; intros i; [constructor|]. cbn [indices_from].
+  destruct (p a); [|apply IH]. constructor; [|apply IH].
+  intros H. apply indices_from_spec in H. lia.
+Qed.
+Lemma el_sel_h : el_sel (ha_el h_atom) = false.
+Proof. reflexivity. Qed.
+
+Section Idempotence.
+Context {F : Type} (o : Fops F).
+
+Theorem hadd_idempotent (m m' : hmol F) ws :
+  (forall a, In a (hm_atoms m) -> ha_hint a = None) ->
+  (forall b, In b (hm_bonds m) -> (0 <= order_of b)%Q) ->
+  hadd o m (default_targets (hm_atoms m)) ws = Some m' ->
+  default_targets (hm_atoms m') = default_targets (hm_atoms m) /\
+  forall t a', In t (default_targets (hm_atoms m')) -> nth_error (hm_atoms m') t = Some a' ->
+    count_of (hm_bonds m') t a' = Some 0%Z.
+Proof.
+  intros Hh Ho H.
+  set (A := hm_atoms m) in *. set (ts := default_targets A) in *.
+  assert (Hlt : forall t, In t ts -> t < length A).
+  { intros t Ht. apply indices_from_spec in Ht. lia. }
+  destruct (hadd_inv o ts ws m m' A 0) as [A' [nbs [ps [P1 [P2 [P3 [P4 [P5 [P6 [P7 [P8 [P9 [P10 P11]]]]]]]]]]]]].
+  { subst A. cbn [repeat]. rewrite app_nil_r. reflexivity. }
+  { exact Hlt. }
+  { apply indices_from_nodup. }
+  { exact H. }
+  assert (Ets : default_targets (hm_atoms m') = ts).
+  { unfold default_targets. rewrite P1, indices_from_app_false by apply el_sel_h.
+    subst ts. unfold default_targets. apply indices_from_ext with (q := fun a => el_sel (ha_el a)); [exact P3 | reflexivity]. }
+  split; [exact Ets|].
+  intros t a' Ht Ha'. rewrite Ets in Ht. pose proof (Hlt t Ht) as Htl.
+  rewrite P1, nth_error_app1 in Ha' by lia. rewrite (P5 t Ht) in Ha'.
+  destruct (nth_error A t) as [a|] eqn:Ha; [|discriminate]. cbn [option_map] in Ha'. inversion Ha'; subst a'. clear Ha'.
+  destruct (P11 t a Ht Ha) as [k [Hk Hadd]].
+  assert (Hhint : ha_hint a = None) by (apply Hh; subst A; eapply nth_error_In; exact Ha).
+  unfold count_of in Hk |- *. cbn [clear_hint ha_hint ha_el]. rewrite Hhint in Hk.
+  destruct (el_ve (ha_el a)) as [ve|]; [|discriminate].
+  assert (Hk' : count_spec (atom_env (hm_bonds m) t a ve) = k) by (rewrite <- hs_expr_is_spec; congruence). clear Hk.
+  f_equal. rewrite hs_expr_is_spec.
+  unfold count_spec, atom_env in *. cbn [v_ve v_fc v_spin v_bv clear_hint ha_fc ha_spin] in *.
+  assert (Hbv : (bonded_valence (hm_bonds m') t == bonded_valence (hm_bonds m) t + inject_Z (Z.of_nat (added_to t nbs)))%Q).
+  { rewrite P6. apply bonded_valence_new with (n := length A); [exact Htl|].
+    apply Forall_forall. intros b Hb. rewrite Forall_forall in P8. destruct (P8 b Hb) as [_ Hb2]. split; [exact Hb2|].
+    assert (Hin : In (hb_a2 b) (map hb_a2 nbs)) by (apply in_map; exact Hb).
+    rewrite P7 in Hin. apply in_seq in Hin. lia. }
+  rewrite (Qceiling_comp _ _ Hbv), Qceiling_shift, Hadd.
+  assert (Hc : (0 <= Qceiling (bonded_valence (hm_bonds m) t))%Z).
+  { apply Qceiling_nonneg. unfold bonded_valence. change (fold_left _ ?l ?x) with (osum l x).
+    apply osum_nonneg; [apply Qle_refl|]. intros b Hb. apply filter_In in Hb. apply Ho. tauto. }
+  revert Hk' Hc. generalize (Qceiling (bonded_valence (hm_bonds m) t)). intros c Hk' Hc.
+  unfold n_added. destruct ((0 <? k) && (k <=? 4))%Z eqn:B.
+  - apply andb_true_iff in B. destruct B as [B1 B2]. apply Z.ltb_lt in B1. apply Z.leb_le in B2.
+    rewrite Z2Nat.id by lia. lia.
+  - apply andb_false_iff in B. destruct B as [B|B]; [apply Z.ltb_ge in B | apply Z.leb_gt in B]; cbn [Z.of_nat]; lia.
+Qed.
+
+End Idempotence.
+
+(* ================================================================== geometry over R *)
+From Coq Require Import Reals Nsatz Lra Psatz.
+From Molli Require Import Common.Field3R Proofs.Rot.
+Import ListNotations.
+Local Open Scope list_scope.
+Local Open Scope R_scope.
+
+Ltac hadd_unfold := cbv [place hvec_raw zdir least_axis tet_rot fabs abs_le c_align k_cos k_sin rot_tol fofQ vofQ].
+
+Lemma vdiv_one (x : vecR) : vdiv ROps x 1 = x.
+Proof. vdestruct. f3. veq; field. Qed.
+
+(* ---- one hydrogen: a - L v/|v| *)
+Lemma place1_eq tet (a : vecR) nb L w :
+  place ROps tet a nb L 1 w = [vsub ROps a (vscale ROps L (vdiv ROps (hvec_raw ROps a nb (w_nrm w)) (w_n w)))].
+Proof. reflexivity. Qed.
+
+Lemma one_h_geom (a v c : vecR) (L n : R) :
+  0 < n -> n * n = norm2 ROps v -> dot ROps v c = norm2 ROps v ->
+  let h := vsub ROps a (vscale ROps L (vdiv ROps v n)) in
+  dist2 ROps h a = L * L /\ dot ROps (vsub ROps h a) c = - L * n.
+Proof.
+  intros Hn E Hc h. subst h. vdestruct. f3_in E. f3_in Hc. f3.
+  assert (Hn' : n <> 0) by lra. inv_as_var Hn'. split; nsatz.
+Qed.
+
+(* ---- two hydrogens: a - L (kc u +/- ks zu), u and zu orthogonal unit vectors *)
+Lemma two_h_unit (a u zu : vecR) (L kc ks : R) :
+  unit u -> unit zu -> dot ROps u zu = 0 ->
+  let h := vsub ROps a (vscale ROps L (vadd ROps (vscale ROps kc u) (vscale ROps ks zu))) in
+  dist2 ROps h a = L * L * (kc * kc + ks * ks) /\ dot ROps (vsub ROps h a) u = - L * kc.
+Proof.
+  intros Hu Hz Ho. cbv zeta. unfold unit in *. vdestruct. f3_in Hu. f3_in Hz. f3_in Ho. f3. split; nsatz.
+Qed.
+
+Lemma dot_vdiv_l (x v : vecR) (n : R) : dot ROps (vdiv ROps v n) x = dot ROps v x / n.
+Proof. vdestruct. f3. unfold Rdiv. ring. Qed.
+Lemma dot_vscale_r (x v : vecR) (k : R) : dot ROps x (vscale ROps k v) = k * dot ROps x v.
+Proof. vdestruct. f3. ring. Qed.
+Lemma vscale_vdiv (v : vecR) (n : R) : n <> 0 -> vscale ROps n (vdiv ROps v n) = v.
+Proof. intros H. vdestruct. f3. veq; field; exact H. Qed.
+
+Lemma two_h_geom (a v z : vecR) (L n nz s : R) :
+  0 < n -> n * n = norm2 ROps v -> 0 < nz -> nz * nz = norm2 ROps z -> dot ROps v z = 0 ->
+  s = 1 \/ s = -1 ->
+  let u := vdiv ROps v n in let zu := vdiv ROps z nz in
+  let h := vsub ROps a (vscale ROps L (vadd ROps (vscale ROps (k_cos ROps) u) (vscale ROps (s * k_sin ROps) zu))) in
+  dist2 ROps h a = L * L * (10001056 / 10000000) /\ dot ROps (vsub ROps h a) v = - L * (5736 / 10000) * n.
+Proof.
+  intros Hn E Hz Ez Ho Hs u zu h.
+  pose proof (unit_vdiv v n Hn E) as Uu. pose proof (unit_vdiv z nz Hz Ez) as Uz.
+  assert (Huz : dot ROps u zu = 0).
+  { subst u zu. rewrite dot_vdiv_l, dot_vdiv_r, Ho. unfold Rdiv. ring. }
+  destruct (two_h_unit a u zu L (k_cos ROps) (s * k_sin ROps) Uu Uz Huz) as [D A]. fold h in D, A.
+  split.
+  - rewrite D. unfold k_cos, k_sin. cbn [fdiv fofZ ROps]. destruct Hs as [-> | ->]; field.
+  - assert (Hv : v = vscale ROps n u) by (subst u; rewrite vscale_vdiv; [reflexivity | lra]).
+    transitivity (dot ROps (vsub ROps h a) (vscale ROps n u)); [f_equal; exact Hv|].
+    rewrite dot_vscale_r, A. unfold k_cos. cbn [fdiv fofZ ROps]. field.
+Qed.
+
+(* ---- the second direction is orthogonal to the first *)
+Lemma zdir_orth_two (a p1 p2 : vecR) (nrm : vecR) :
+  dot ROps (hvec_raw ROps a [p1; p2] nrm) (cross ROps (vsub ROps p1 a) (vsub ROps p2 a)) = 0.
+Proof. vdestruct. hadd_unfold. cbv [centroid vsum fold_right map length fnat]. f3. cbn [fofZ ROps Z.of_nat Pos.of_succ_nat Pos.succ]. field. Qed.
+
+Lemma cross_orth_l (u x : vecR) : dot ROps u (cross ROps u x) = 0.
+Proof. vdestruct. f3. ring. Qed.
+
+(* the coordinate axis least aligned with a unit vector is never parallel to it (this is what the repaired
+   code relies on; crossing with a FIXED axis gave the zero vector for a bond along that axis) *)
+Lemma least_axis_cross_nonzero (u : vecR) : unit u -> 2 / 3 <= norm2 ROps (cross ROps u (least_axis ROps u)).
+Proof.
+  unfold unit. destruct u as [[x y] z]. intros Hu. f3_in Hu.
+  unfold least_axis, fabs. cbn [fleb f0 f1 fopp ROps].
+  destruct (Rleb 0 x) eqn:Ex; destruct (Rleb 0 y) eqn:Ey; destruct (Rleb 0 z) eqn:Ez;
+  repeat match goal with
+         | H : Rleb _ _ = true |- _ => apply Rleb_true in H
+         | H : Rleb _ _ = false |- _ => apply Rleb_false in H
+         end;
+  match goal with |- context [if (Rleb ?p ?q && Rleb ?p ?r)%bool then _ else _] =>
+    destruct (Rleb p q) eqn:E1; destruct (Rleb p r) eqn:E2; cbn [andb] end;
+  try match goal with |- context [if Rleb ?p ?q then _ else _] => destruct (Rleb p q) eqn:E3 end;
+  repeat match goal with
+         | H : Rleb _ _ = true |- _ => apply Rleb_true in H
+         | H : Rleb _ _ = false |- _ => apply Rleb_false in H
+         end;
+  f3; nra.
+Qed.
+
+(* ---- three / four hydrogens: rows of the tetrahedron, rotated so that row 0 points along v *)
+Lemma tet_h_geom (a v ov t0 t : vecR) (L n : R) :
+  0 < n -> n * n = norm2 ROps v -> norm2 ROps t0 = 1 ->
+  unit ov -> dot ROps ov (vdiv ROps v n) = 0 ->
+  let u := vdiv ROps v n in
+  let M := rot_from_vectors ROps (rot_tol ROps) t0 1 u 1 ov in
+  let h := vadd ROps (vscale ROps L (vm ROps t M)) a in
+  proper M /\ vm ROps t0 M = u /\
+  dist2 ROps h a = L * L * norm2 ROps t /\ dot ROps (vsub ROps h a) v = L * n * dot ROps t t0.
+Proof.
+  intros Hn E Ht0 Uo Hov u M h.
+  pose proof (unit_vdiv v n Hn E) as Uu. fold u in Uu.
+  assert (Htol : 0 <= rot_tol ROps < 1) by (unfold rot_tol; cbn [fdiv fofZ ROps]; lra).
+  assert (E1 : 1 * 1 = norm2 ROps t0) by lra.
+  assert (E2 : 1 * 1 = norm2 ROps u) by (unfold unit in Uu; unfold norm2; lra).
+  destruct (rot_from_vectors_correct (rot_tol ROps) t0 u ov 1 1 Htol Rlt_0_1 E1 Rlt_0_1 E2 Uo Hov) as [P Mp].
+  fold M in P, Mp. rewrite !vdiv_one in Mp.
+  split; [exact P|]. split; [exact Mp|].
+  destruct P as [Oo _].
+  assert (Hha : vsub ROps h a = vscale ROps L (vm ROps t M)).
+  { subst h. generalize (vm ROps t M). intros y. vdestruct. f3. veq; ring. }
+  split.
+  - unfold dist2. rewrite Hha.
+    assert (Hs : forall k (y : vecR), norm2 ROps (vscale ROps k y) = k * k * norm2 ROps y) by (intros; vdestruct; f3; ring).
+    rewrite Hs. unfold norm2. rewrite (orth_preserves_dot M t t Oo). reflexivity.
+  - rewrite Hha.
+    assert (Hv : v = vscale ROps n u) by (subst u; rewrite vscale_vdiv; [reflexivity | lra]).
+    rewrite Hv at 1. rewrite <- Mp.
+    assert (Hs : forall k j (x y : vecR), dot ROps (vscale ROps k x) (vscale ROps j y) = k * j * dot ROps x y) by (intros; vdestruct; f3; ring).
+    rewrite Hs, (orth_preserves_dot M t t0 Oo). ring.
+Qed.
+
+(* ---- the centroid of the neighbours seen from the atom *)
+Lemma vsum_shift (a : vecR) (nb : list vecR) :
+  vsum ROps (map (fun p => vsub ROps p a) nb) = vsub ROps (vsum ROps nb) (vscale ROps (fnat ROps (length nb)) a).
+Proof.
+  induction nb as [|p nb IH].
+  - destruct a as [[? ?] ?]. cbv [vsum fold_right map length fnat]. f3. cbn [fofZ ROps Z.of_nat]. veq; ring.
+  - cbn [map length]. unfold vsum in *. cbn [fold_right]. rewrite IH.
+    unfold fnat. rewrite Nat2Z.inj_succ. cbn [fofZ ROps]. rewrite succ_IZR.
+    generalize (fold_right (vadd ROps) (vzero ROps) nb). intros sv.
+    generalize (IZR (Z.of_nat (length nb))). intros r. vdestruct. f3. veq; ring.
+Qed.
+Lemma centroid_shift (a : vecR) (nb : list vecR) : nb <> [] ->
+  centroid ROps (map (fun p => vsub ROps p a) nb) = vsub ROps (centroid ROps nb) a.
+Proof.
+  intros Hne. unfold centroid. rewrite vsum_shift, map_length.
+  assert (Hl : fnat ROps (length nb) <> 0).
+  { unfold fnat. cbn [fofZ ROps]. destruct nb; [contradiction|]. cbn [length]. rewrite Nat2Z.inj_succ, succ_IZR.
+    pose proof (IZR_le 0 (Z.of_nat (length nb)) (Nat2Z.is_nonneg _)). lra. }
+  generalize dependent (fnat ROps (length nb)). intros r Hr.
+  generalize (vsum ROps nb). intros sv. vdestruct. f3. veq; field; exact Hr.
+Qed.
+
+(* hvec_raw "points towards the neighbours": v . (centroid - a) = |v|^2, in the averaging branch (1, 2, >= 4
+   neighbours) and in the oriented-normal branch (3 neighbours off the atom's plane) *)
+Definition avg_branch {A} (nb : list A) : Prop := nb <> [] /\ length nb <> 3%nat.
+
+Lemma hvec_avg (a nrm : vecR) (nb : list vecR) : avg_branch nb ->
+  hvec_raw ROps a nb nrm = vsub ROps (centroid ROps nb) a.
+Proof.
+  intros [Hne H3]. rewrite <- centroid_shift by exact Hne.
+  destruct nb as [|p1 [|p2 [|p3 [|p4 r]]]]; try reflexivity; [contradiction | cbn in H3; lia].
+Qed.
+
+Lemma hvec_three (a nrm p1 p2 p3 : vecR) : unit nrm ->
+  let c := vsub ROps (centroid ROps [p1; p2; p3]) a in
+  abs_le ROps (dot ROps nrm c) (c_align ROps) = false ->
+  let v := hvec_raw ROps a [p1; p2; p3] nrm in
+  v = vscale ROps (dot ROps nrm c) nrm /\ dot ROps v c = norm2 ROps v.
+Proof.
+  intros Un c Hal v. subst v. unfold hvec_raw. fold c. rewrite Hal. split; [reflexivity|].
+  clear Hal. revert Un. generalize c. clear c. intros c Un. unfold unit in Un.
+  destruct nrm as [[n1 n2] n3]. destruct c as [[c1 c2] c3]. f3_in Un. f3. nsatz.
+Qed.
+
+(* ================================================================== the placement function, branch by branch *)
+Definition towards (v c : vecR) : Prop := dot ROps v c = norm2 ROps v.
+
+Theorem place_one (tet : list vecR) (a : vecR) (nb : list vecR) (L : R) (w : wit R) :
+  let v := hvec_raw ROps a nb (w_nrm w) in
+  0 < w_n w -> w_n w * w_n w = norm2 ROps v ->
+  exists h, place ROps tet a nb L 1 w = [h] /\ dist2 ROps h a = L * L /\
+            forall c, towards v c -> dot ROps (vsub ROps h a) c = - L * w_n w.
+Proof.
+  intros v Hn E. eexists. split; [apply place1_eq|]. fold v. split.
+  - apply (one_h_geom a v v L (w_n w) Hn E eq_refl).
+  - intros c Hc. apply (one_h_geom a v c L (w_n w) Hn E Hc).
+Qed.
+
+Lemma vsub_as_vadd (x y : vecR) (k : R) : vsub ROps x (vscale ROps k y) = vadd ROps x (vscale ROps (-1 * k) y).
+Proof. vdestruct. f3. veq; ring. Qed.
+Lemma vadd_one_k (x y : vecR) (k : R) : vadd ROps x (vscale ROps k y) = vadd ROps x (vscale ROps (1 * k) y).
+Proof. vdestruct. f3. veq; ring. Qed.
+
+Lemma zdir_orth (a : vecR) (nb : list vecR) (nrm : vecR) (n : R) : n <> 0 ->
+  let v := hvec_raw ROps a nb nrm in
+  dot ROps v (zdir ROps a nb (vdiv ROps v n)) = 0.
+Proof.
+  intros Hn v.
+  assert (G : dot ROps v (cross ROps (vdiv ROps v n) (least_axis ROps (vdiv ROps v n))) = 0).
+  { rewrite <- (vscale_vdiv v n Hn) at 1.
+    assert (Hs : forall k (x y : vecR), dot ROps (vscale ROps k x) y = k * dot ROps x y) by (intros; vdestruct; f3; ring).
+    rewrite Hs, cross_orth_l. ring. }
+  destruct nb as [|p1 [|p2 [|p3 r]]]; try exact G.
+  subst v. apply zdir_orth_two.
+Qed.
+
+Theorem place_two (tet : list vecR) (a : vecR) (nb : list vecR) (L : R) (w : wit R) :
+  let v := hvec_raw ROps a nb (w_nrm w) in
+  let z := zdir ROps a nb (vdiv ROps v (w_n w)) in
+  0 < w_n w -> w_n w * w_n w = norm2 ROps v -> 0 < w_nz w -> w_nz w * w_nz w = norm2 ROps z ->
+  exists h1 h2, place ROps tet a nb L 2 w = [h1; h2] /\
+    forall h, h = h1 \/ h = h2 ->
+      dist2 ROps h a = L * L * (10001056 / 10000000) /\ dot ROps (vsub ROps h a) v = - L * (5736 / 10000) * w_n w.
+Proof.
+  intros v z Hn E Hz Ez.
+  assert (Ho : dot ROps v z = 0) by (apply zdir_orth; lra).
+  do 2 eexists. split; [reflexivity|]. fold v. fold z. intros h [-> | ->].
+  - rewrite (vadd_one_k _ _ (k_sin ROps)).
+    apply (two_h_geom a v z L (w_n w) (w_nz w) 1 Hn E Hz Ez Ho). left; reflexivity.
+  - rewrite (vsub_as_vadd _ _ (k_sin ROps)).
+    apply (two_h_geom a v z L (w_n w) (w_nz w) (-1) Hn E Hz Ez Ho). right; reflexivity.
+Qed.
+
+Theorem place_tet (t0 t1 t2 t3 : vecR) (a : vecR) (nb : list vecR) (L : R) (hs : Z) (w : wit R) :
+  let tet := [t0; t1; t2; t3] in
+  let v := hvec_raw ROps a nb (w_nrm w) in
+  (hs = 3 \/ hs = 4)%Z ->
+  0 < w_n w -> w_n w * w_n w = norm2 ROps v -> norm2 ROps t0 = 1 ->
+  unit (w_ov w) -> dot ROps (w_ov w) (vdiv ROps v (w_n w)) = 0 ->
+  exists M, proper M /\ vm ROps t0 M = vdiv ROps v (w_n w) /\
+    place ROps tet a nb L hs w = map (fun t => vadd ROps (vscale ROps L (vm ROps t M)) a) (skipn (Z.to_nat (4 - hs)) tet) /\
+    forall t, In t tet ->
+      let h := vadd ROps (vscale ROps L (vm ROps t M)) a in
+      dist2 ROps h a = L * L * norm2 ROps t /\ dot ROps (vsub ROps h a) v = L * w_n w * dot ROps t t0.
+Proof.
+  intros tet v Hhs Hn E Ht0 Uo Hov.
+  exists (rot_from_vectors ROps (rot_tol ROps) t0 1 (vdiv ROps v (w_n w)) 1 (w_ov w)).
+  pose proof (fun t => tet_h_geom a v (w_ov w) t0 t L (w_n w) Hn E Ht0 Uo Hov) as G. cbv zeta in G.
+  split; [apply (G t0)|]. split; [apply (G t0)|]. split.
+  - destruct Hhs as [-> | ->]; reflexivity.
+  - intros t _. split; apply (G t).
+Qed.
+
+(* ---- witnesses exist exactly when the geometry is not degenerate: nothing is divided by zero *)
+Lemma norm2_nonneg (v : vecR) : 0 <= norm2 ROps v.
+Proof. vdestruct. f3. nra. Qed.
+Lemma witness_exists (v : vecR) : 0 < norm2 ROps v -> exists n, 0 < n /\ n * n = norm2 ROps v.
+Proof.
+  intros H. exists (sqrt (norm2 ROps v)). split; [apply sqrt_lt_R0; exact H | apply sqrt_sqrt; lra].
+Qed.
+
+Lemma sq3_zero (x y z : R) : 0 = x * x + y * y + z * z -> x = 0 /\ y = 0 /\ z = 0.
+Proof.
+  intros H. pose proof (Rle_0_sqr x). pose proof (Rle_0_sqr y). pose proof (Rle_0_sqr z). unfold Rsqr in *.
+  assert (x * x = 0) by lra. assert (y * y = 0) by lra. assert (z * z = 0) by lra.
+  repeat split; apply Rsqr_0_uniq; unfold Rsqr; assumption.
+Qed.
+Lemma norm2_zero_sub (c a : vecR) : 0 = norm2 ROps (vsub ROps c a) -> c = a.
+Proof. vdestruct. intros G. f3_in G. apply sq3_zero in G. destruct G as [G1 [G2 G3]]. veq; lra. Qed.
+Lemma norm2_zero (c : vecR) : 0 = norm2 ROps c -> c = vzero ROps.
+Proof. vdestruct. intros G. f3_in G. apply sq3_zero in G. destruct G as [G1 [G2 G3]]. f3. veq; lra. Qed.
+
+Lemma hvec_nonzero (a nrm : vecR) (nb : list vecR) : unit nrm ->
+  (avg_branch nb -> centroid ROps nb <> a) ->
+  0 < norm2 ROps (hvec_raw ROps a nb nrm).
+Proof.
+  intros Un Hc.
+  destruct nb as [|p1 [|p2 [|p3 [|p4 r]]]].
+  - hadd_unfold. f3. lra.
+  - rewrite hvec_avg by (split; [discriminate | cbn; lia]).
+    assert (Hne : centroid ROps [p1] <> a) by (apply Hc; split; [discriminate | cbn; lia]).
+    revert Hne. generalize (centroid ROps [p1]). intros c Hne.
+    destruct (Rle_lt_or_eq_dec 0 _ (norm2_nonneg (vsub ROps c a))) as [G|G]; [exact G|].
+    exfalso. apply Hne. apply norm2_zero_sub. exact G.
+  - rewrite hvec_avg by (split; [discriminate | cbn; lia]).
+    assert (Hne : centroid ROps [p1; p2] <> a) by (apply Hc; split; [discriminate | cbn; lia]).
+    revert Hne. generalize (centroid ROps [p1; p2]). intros c Hne.
+    destruct (Rle_lt_or_eq_dec 0 _ (norm2_nonneg (vsub ROps c a))) as [G|G]; [exact G|].
+    exfalso. apply Hne. apply norm2_zero_sub. exact G.
+  - unfold hvec_raw. set (al := dot ROps nrm (vsub ROps (centroid ROps [p1; p2; p3]) a)).
+    destruct (abs_le ROps al (c_align ROps)) eqn:Hal.
+    + unfold unit in Un. unfold norm2. lra.
+    + assert (Hs : norm2 ROps (vscale ROps al nrm) = al * al * dot ROps nrm nrm) by (clearbody al; vdestruct; f3; ring).
+      rewrite Hs. unfold unit in Un. rewrite Un.
+      unfold abs_le, c_align in Hal. cbn [fleb fopp fdiv fofZ ROps] in Hal.
+      apply andb_false_iff in Hal. destruct Hal as [Hal|Hal]; apply Rleb_false in Hal; nra.
+  - rewrite hvec_avg by (split; [discriminate | cbn; lia]).
+    assert (Hne : centroid ROps (p1 :: p2 :: p3 :: p4 :: r) <> a) by (apply Hc; split; [discriminate | cbn; lia]).
+    revert Hne. generalize (centroid ROps (p1 :: p2 :: p3 :: p4 :: r)). intros c Hne.
+    destruct (Rle_lt_or_eq_dec 0 _ (norm2_nonneg (vsub ROps c a))) as [G|G]; [exact G|].
+    exfalso. apply Hne. apply norm2_zero_sub. exact G.
+Qed.
+
+Lemma zdir_nonzero (a : vecR) (nb : list vecR) (u : vecR) : unit u ->
+  (forall p1 p2, nb = [p1; p2] -> cross ROps (vsub ROps p1 a) (vsub ROps p2 a) <> vzero ROps) ->
+  0 < norm2 ROps (zdir ROps a nb u).
+Proof.
+  intros Uu H2.
+  assert (G : 0 < norm2 ROps (cross ROps u (least_axis ROps u))) by (pose proof (least_axis_cross_nonzero u Uu); lra).
+  destruct nb as [|p1 [|p2 [|p3 r]]]; try exact G.
+  specialize (H2 p1 p2 eq_refl). unfold zdir. revert H2. generalize (cross ROps (vsub ROps p1 a) (vsub ROps p2 a)). intros c Hne.
+  destruct (Rle_lt_or_eq_dec 0 _ (norm2_nonneg c)) as [K|K]; [exact K|].
+  exfalso. apply Hne. apply norm2_zero. exact K.
+Qed.
+
+(* ================================================================== from the rational table to the reals *)
+From Coq Require Import Qreals.
+Local Open Scope R_scope.
+
+Lemma fofQ_R (q : Q) : fofQ ROps q = Q2R q.
+Proof. unfold fofQ, Q2R. cbn [fdiv fofZ ROps]. reflexivity. Qed.
+Definition vQ2R (v : vecQ) : vecR := vofQ ROps v.
+Lemma dot_vQ2R (a b : vecQ) : dot ROps (vQ2R a) (vQ2R b) = Q2R (dotQ a b).
+Proof.
+  destruct a as [[a1 a2] a3]. destruct b as [[b1 b2] b3]. unfold vQ2R, vofQ, dotQ. rewrite !fofQ_R.
+  f3. rewrite !Q2R_plus, !Q2R_mult. reflexivity.
+Qed.
+Lemma Qle_bool_R (x y : Q) : Qle_bool x y = true -> Q2R x <= Q2R y.
+Proof. intros H. apply Qle_Rle. apply Qle_bool_iff. exact H. Qed.
+
+(* rows of a table accepted by tet_ok, seen as real vectors *)
+Lemma tet_ok_R (t0 t1 t2 t3 : vecQ) : tet_ok [t0; t1; t2; t3] = true ->
+  norm2 ROps (vQ2R t0) = 1 /\
+  forall t, In t [t1; t2; t3] ->
+    1 - 1 / 100000000 <= norm2 ROps (vQ2R t) <= 1 + 1 / 100000000 /\
+    - (34 / 100) <= dot ROps (vQ2R t) (vQ2R t0) <= - (33 / 100).
+Proof.
+  unfold tet_ok. rewrite andb_true_iff, forallb_forall. intros [H0 Hr]. split.
+  - unfold norm2. rewrite dot_vQ2R. apply Qeq_bool_iff, Qeq_eqR in H0. rewrite H0. unfold Q2R. simpl. lra.
+  - intros t Ht. specialize (Hr t Ht). rewrite !andb_true_iff in Hr. destruct Hr as [[[A B] C] D].
+    apply Qle_bool_R in A, B, C, D. unfold norm2. rewrite !dot_vQ2R.
+    assert (L1 : Q2R 1 = 1) by (unfold Q2R; simpl; lra).
+    assert (L2 : Q2R tet_tol = 1 / 100000000) by (unfold Q2R, tet_tol; simpl; lra).
+    assert (L3 : Q2R (34 # 100) = 34 / 100) by (unfold Q2R; simpl; lra).
+    assert (L4 : Q2R (33 # 100) = 33 / 100) by (unfold Q2R; simpl; lra).
+    rewrite Q2R_minus, L1, L2 in A. rewrite Q2R_plus, L1, L2 in B. rewrite Q2R_opp, L3 in C. rewrite Q2R_opp, L4 in D.
+    repeat split; lra.
+Qed.
+
+(* the distance in the two-hydrogen branch, against the sum of covalent radii L *)
+Lemma two_h_distance_tolerance (d2 L : R) : 0 < L -> d2 = L * L * (10001056 / 10000000) ->
+  L * L < d2 /\ d2 < (L * (1 + 6 / 100000)) * (L * (1 + 6 / 100000)).
+Proof. intros HL ->. split; nra. Qed.
+
+(* ================================================================== "only adds" on C05's model of the same routine *)
+(* Model/MolEdit.v (C05) models add_implicit_hydrogens structurally, with the number and the coordinate rows of
+   the hydrogens as arguments of the operation AddHs.  Its theorems (Inv preserved, every old atom keeps its row
+   and charge) are REUSED in Props/C16.v; what they do not say -- the old atom, bond, coordinate and charge lists
+   are PREFIXES of the new ones, the new atoms are hydrogens, every new bond joins a target to a new hydrogen --
+   is proved here about the same definitions. *)
+From Molli Require Model.MolEdit Proofs.MolEdit.
+Module C05link.
+Import Molli.Model.MolEdit Molli.Proofs.MolEdit.
+Local Open Scope nat_scope.
+Local Open Scope list_scope.
+
+Definition OnlyAdds (targets : list positive) (s s' : st) : Prop :=
+  exists na nb nc nq,
+    MolEdit.atoms s' = MolEdit.atoms s ++ na /\ MolEdit.bonds s' = MolEdit.bonds s ++ nb /\
+    coords s' = coords s ++ nc /\ charges s' = charges s ++ nq /\ has_q s' = has_q s /\
+    (next_a s <= next_a s')%positive /\
+    Forall (fun a => a_el a = el_H /\ (next_a s <= a_id a)%positive) na /\
+    Forall (fun b => In (b_a1 b) targets /\ In (b_a2 b) (map a_id na)) nb /\
+    length nc = length na /\ length nb <= length na /\ Forall (fun q => q = CNum 0) nq.
+
+Lemma OnlyAdds_refl T s : OnlyAdds T s s.
+Proof.
+  exists [], [], [], []. rewrite !app_nil_r. repeat split; auto. apply Pos.le_refl.
+Qed.
+
+Lemma OnlyAdds_trans T s1 s2 s3 : OnlyAdds T s1 s2 -> OnlyAdds T s2 s3 -> OnlyAdds T s1 s3.
+Proof.
+  intros [na [nb [nc [nq [A1 [A2 [A3 [A4 [A5 [A6 [A7 [A8 [A9 [A10 A11]]]]]]]]]]]]]]
+         [na' [nb' [nc' [nq' [B1 [B2 [B3 [B4 [B5 [B6 [B7 [B8 [B9 [B10 B11]]]]]]]]]]]]]].
+  exists (na ++ na'), (nb ++ nb'), (nc ++ nc'), (nq ++ nq').
+  rewrite B1, B2, B3, B4, A1, A2, A3, A4, <- !app_assoc, !app_length.
+  repeat split; auto.
+  - congruence.
+  - eapply Pos.le_trans; eauto.
+  - apply Forall_app. split; [exact A7|]. eapply Forall_impl; [|exact B7].
+    intros a [E1 E2]. split; [exact E1 | eapply Pos.le_trans; eauto].
+  - apply Forall_app. split; (eapply Forall_impl; [|eassumption]); intros b [E1 E2]; (split; [exact E1|]);
+      rewrite map_app; apply in_or_app; [left|right]; exact E2.
+  - rewrite A9, B9. reflexivity.
+  - apply Nat.add_le_mono; assumption.
+  - apply Forall_app. split; assumption.
+Qed.
+
+(* one hydrogen: add_atom(H, c) then append_bond(Bond(x, h)) *)
+Lemma one_h_only_adds T s x c r : In x T ->
+  r = bind (add_atom s el_H None (Some c) None) (fun s'' => conn_append_bond s'' x (next_a s)) ->
+  forall s', (r = Ok s' \/ r = Err s') -> OnlyAdds T s s'.
+Proof.
+  intros Hx -> s' H. rewrite add_atom_spec in H. cbn [bind] in H.
+  unfold conn_append_bond in H.
+  destruct (is_member (added s el_H None c 0) x && is_member (added s el_H None c 0) (next_a s))%bool;
+    [|destruct H; discriminate].
+  destruct H as [H|H]; [|discriminate]. inversion H; subst s'. clear H.
+  unfold added. cbn [MolEdit.atoms MolEdit.bonds coords charges has_q next_a next_b].
+  exists [mkAtom (next_a s) el_H None OThis], [mkBond (next_b s) x (next_a s) OThis], [c],
+         (if has_q s then [CNum 0] else []).
+  repeat split; auto.
+  - destruct (has_q s); [reflexivity | rewrite app_nil_r; reflexivity].
+  - lia.
+  - constructor; [|constructor]. cbn. split; [reflexivity | apply Pos.le_refl].
+  - constructor; [|constructor]. cbn. split; [exact Hx | left; reflexivity].
+  - destruct (has_q s); repeat constructor.
+Qed.
+
+Lemma fold_only_adds {X} T (G : st -> X -> res) :
+  (forall s x s', (G s x = Ok s' \/ G s x = Err s') -> OnlyAdds T s s') ->
+  forall l s s', (fold_left (fun r x => bind r (fun s0 => G s0 x)) l (Ok s) = Ok s' \/
+                  fold_left (fun r x => bind r (fun s0 => G s0 x)) l (Ok s) = Err s') -> OnlyAdds T s s'.
+Proof.
+  intros HG. induction l as [|x l IH]; intros s s' H.
+  - cbn in H. destruct H as [H|H]; [inversion H; subst; apply OnlyAdds_refl | discriminate].
+  - cbn [fold_left bind] in H. destruct (G s x) as [s1|s1| |] eqn:E.
+    + eapply OnlyAdds_trans; [apply (HG s x s1); left; exact E | apply IH; exact H].
+    + rewrite fold_bind_stuck in H by (intros; discriminate).
+      destruct H as [H|H]; [discriminate|]. inversion H; subst. apply (HG s x s'). right. exact E.
+    + rewrite fold_bind_stuck in H by (intros; discriminate). destruct H; discriminate.
+    + rewrite fold_bind_stuck in H by (intros; discriminate). destruct H; discriminate.
+Qed.
+
+Lemma add_hs_one_only_adds T s x cs s' : In x T ->
+  (add_hs_one s x cs = Ok s' \/ add_hs_one s x cs = Err s') -> OnlyAdds T s s'.
+Proof.
+  intros Hx H. unfold add_hs_one in H. destruct (is_member s x).
+  - revert H. apply (fold_only_adds T (fun s0 c => bind (add_atom s0 el_H None (Some c) None)
+                                                       (fun s'' => conn_append_bond s'' x (next_a s0)))).
+    intros s0 c s1 H1. eapply one_h_only_adds; [exact Hx | reflexivity | exact H1].
+  - destruct H as [H|H]; [discriminate|]. inversion H; subst. apply OnlyAdds_refl.
+Qed.
+
+Theorem add_hs_only_adds s l s' :
+  (step s (AddHs l) = Ok s' \/ step s (AddHs l) = Err s') -> OnlyAdds (map fst l) s s'.
+Proof.
+  cbn [step]. unfold add_hs. intros H.
+  assert (G : forall l0, (forall p, In p l0 -> In (fst p) (map fst l)) ->
+            forall s0 s1, (fold_left (fun r p => bind r (fun s2 => add_hs_one s2 (fst p) (snd p))) l0 (Ok s0) = Ok s1 \/
+                           fold_left (fun r p => bind r (fun s2 => add_hs_one s2 (fst p) (snd p))) l0 (Ok s0) = Err s1) ->
+            OnlyAdds (map fst l) s0 s1).
+  { induction l0 as [|p l0 IH]; intros Hin s0 s1 H0.
+    - cbn in H0. destruct H0 as [H0|H0]; [inversion H0; subst; apply OnlyAdds_refl | discriminate].
+    - cbn [fold_left bind] in H0. destruct (add_hs_one s0 (fst p) (snd p)) as [s2|s2| |] eqn:E.
+      + eapply OnlyAdds_trans.
+        * eapply add_hs_one_only_adds; [apply Hin; left; reflexivity | left; exact E].
+        * apply IH; [intros q Hq; apply Hin; right; exact Hq | exact H0].
+      + rewrite fold_bind_stuck in H0 by (intros; discriminate).
+        destruct H0 as [H0|H0]; [discriminate|]. inversion H0; subst.
+        eapply add_hs_one_only_adds; [apply Hin; left; reflexivity | right; exact E].
+      + rewrite fold_bind_stuck in H0 by (intros; discriminate). destruct H0; discriminate.
+      + rewrite fold_bind_stuck in H0 by (intros; discriminate). destruct H0; discriminate. }
+  apply (G l); [|exact H]. intros p Hp. apply in_map. exact Hp.
+Qed.
+
+(* C05's own theorems, instantiated at AddHs: the invariant survives, every old atom keeps its row and charge *)
+Theorem add_hs_c05_frame s l s' : Inv s ->
+  (step s (AddHs l) = Ok s' \/ step s (AddHs l) = Err s') ->
+  Inv s' /\
+  (forall y, In y (ids s) -> In y (ids s') -> row_of s' y = row_of s y) /\
+  (forall y, In y (ids s') -> In y (ids s) \/ (next_a s <= y)%positive).
+Proof.
+  intros HI H. split; [exact (inv_step s (AddHs l) s' HI H) | exact (keeps_step s (AddHs l) s' HI H)].
+Qed.
+End C05link.
